@@ -8,6 +8,8 @@ Require Import BS.FS BS.FSFacts BS.Meta BS.MetaFacts BS.Header BS.Reader BS.Read
 Require Import BS.EstimateGenFacts.
 Require BSgen.EstimateGen.
 Require Import BS.World BS.Judge BS.JudgeFacts BS.CacheOpenFacts BS.JudgeCacheFacts.
+Require Import BS.Common BS.Api BS.Index BS.Data BS.Seek BS.SeekGenFacts.
+Require BSgen.SeekGen.
 Import ListNotations.
 
 (* (I) the line estimate of a cache level never panics (saturating subtraction after the fix), except in the
@@ -107,3 +109,17 @@ Theorem C11_session_with_caches_accepted_by_judge : forall (name:list byte) (p:n
   accepted World.init_world judge_init (ONew name (N.of_nat p) hdr Bs cb :: ops).
 Proof. exact session_accepted_caches. Qed.
 Print Assumptions C11_session_with_caches_accepted_by_judge.
+
+(* the bound arithmetic and the 65534 comparison of the seek, as the current source text makes them (translated on every run by
+   tools/translate_seek.py into gen/SeekGen.v), are the model's: the reads and the repair this property speaks of go through them *)
+Theorem C11_source_start_bound_is_model : forall d b first last, data_range d = Ok (Some (first, last)) ->
+  checked_start_time d b = BSgen.SeekGen.gen_checked_start first last b.
+Proof. exact gen_checked_start_is_model. Qed.
+Print Assumptions C11_source_start_bound_is_model.
+Theorem C11_source_end_bound_is_model : forall d b first last, data_range d = Ok (Some (first, last)) ->
+  checked_end_time d b = BSgen.SeekGen.gen_checked_end first last b.
+Proof. exact gen_checked_end_is_model. Qed.
+Print Assumptions C11_source_end_bound_is_model.
+Theorem C11_source_in_gap_is_model : forall val gs, in_gap val gs = BSgen.SeekGen.gen_in_gap val gs.
+Proof. exact gen_in_gap_is_model. Qed.
+Print Assumptions C11_source_in_gap_is_model.
